@@ -2,7 +2,9 @@
 //! (HTTP/1.1 over TLS, HTTP/2 over TLS, HTTP/3 over QUIC), each with a tunnel to the transfer canary that uploads `u` and
 //! downloads `d` bytes and stays open, optionally a UDP multiplexer stream with `k` flows on one of them; `/metrics` is read over
 //! TCP while everything is live and quiet, and again after every client has gone.
-//! in : [u1, d1, u2, d2, u3, d3, udp transport (0 none | 1 | 2 | 3), k, payload length]   (u = 0: that transport is not used)
+//! in : [u1, d1, u2, d2, u3, d3, udp transport (0 none | 1 | 2 | 3), k, payload length, T, vanish]   (u = 0: that transport is not used)
+//!      T > 0: client_listener_timeout in seconds (also the QUIC idle timeout); vanish = 1: the HTTP/3 client does not close its
+//!      connection, it just stops answering (a client that lost its network): the session has to be released by the idle timer
 //! out: [996] | [status 1, status 2, status 3, status of the multiplexer request, replies the multiplexer client got]
 //!              [live : sessions 1 2 3, tcp sockets, udp sockets, inbound 1 2 3, outbound 1 2 3]
 //!              [after: the same eleven]
@@ -127,6 +129,8 @@ pub fn run(toks: Vec<Tok>) -> Vec<Tok> {
     rt.block_on(async move {
         let ud: Vec<(usize, usize)> = (0..3).map(|i| (f[2 * i] as usize, f[2 * i + 1] as usize)).collect();
         let (udp_on, k, plen) = (f[6] as usize, f[7] as usize, f[8] as usize);
+        let idle_secs = f.get(9).copied().unwrap_or(0) as u64;
+        let vanish = f.get(10).copied().unwrap_or(0) == 1;
         // transfer canary: reads `up` bytes (the first eight say how many and how many to answer), answers `down` bytes, stays open
         let l = TcpListener::bind("127.0.0.1:0").await.unwrap();
         let canary = l.local_addr().unwrap();
@@ -170,8 +174,9 @@ pub fn run(toks: Vec<Tok>) -> Vec<Tok> {
             t.local_addr().unwrap()
         };
         let make = move |addr: SocketAddr| {
-            Settings::builder()
-                .listen_address(addr)
+            let b = Settings::builder();
+            let b = if idle_secs > 0 { b.client_listener_timeout(Duration::from_secs(idle_secs)) } else { b };
+            b.listen_address(addr)
                 .unwrap()
                 .listen_protocols(ListenProtocolSettings {
                     http1: Some(Http1Settings::builder().build()),
@@ -380,13 +385,18 @@ pub fn run(toks: Vec<Tok>) -> Vec<Tok> {
             d.abort();
         }
         if let Some(mut c) = h3 {
-            c.close();
-            c.drive(Duration::from_millis(100), |_| false).await;
+            if vanish {
+                // no close, no further packets: the socket is dropped with the client
+                drop(c);
+            } else {
+                c.close();
+                c.drive(Duration::from_millis(100), |_| false).await;
+            }
         }
         // the gauges settle as the sessions wind down
         let mut after_text = String::new();
         let mut waited = 0u128;
-        for _ in 0..100 {
+        for _ in 0..(100 + 10 * idle_secs * 3) {
             tokio::time::sleep(Duration::from_millis(100)).await;
             waited += 100;
             after_text = http_get(maddr, "/metrics").await.1;
